@@ -78,6 +78,12 @@ int main() {
 '''
 
 
+def tail_from_last_try(out):
+    out = out or ''
+    i = out.rfind('trying ')
+    return out[max(0, i):][:2500]
+
+
 def replay(ctx, job, ob, steps, base):
     from xv.driver import TraceView
     tv = TraceView(steps)
@@ -96,4 +102,4 @@ def replay(ctx, job, ob, steps, base):
     prog = '#define CEX_BYTES "%s"\n#define CEX_LEN %d\n#define SEED %du\n' % (lit, n, seed) + REPLAY
     rc, out = native_run(prog, base, extra=['-fsanitize=address,undefined', '-fno-sanitize-recover=all', '-g'])
     confirmed = rc not in (0, None)
-    return (confirmed, (out or '')[-3000:] + '\nprogram: %s.cpp (g++ -fsanitize=address,undefined)' % base)
+    return (confirmed, tail_from_last_try(out) + '\nprogram: %s.cpp (g++ -fsanitize=address,undefined)' % base)
